@@ -44,6 +44,9 @@ def run(ctx):
                 ok = bool(blocks) and b.all_paths_pass(blocks, {tb})[0]
                 if not ok:
                     ctx.violation(R_ALL, "%s|true-without-field:%s" % (key, fld), "`true` is answered on a path that did not consult field `%s`" % fld, b.loc(tb))
+    R_LE = ctx.rule("C03.lenempty", "collection wrappers that override Len::is_empty agree with their own len()", floor=2)
+    from lattice_common import len_isempty_rule
+    len_isempty_rule(ctx, c, R_LE)
     R_PS = ctx.rule("C03.predsib", "a Merge impl that special-cases bottom/top component values has PartialOrd/PartialEq impls consulting the same predicate", floor=10)
     from lattice_common import predsib_rule
     predsib_rule(ctx, c, R_PS)
